@@ -239,9 +239,14 @@ func c15Adapter(c *Ctx) {
 			}
 			if mi, isM := e.(*ssa.MakeInterface); isM {
 				if al, isA := mi.X.(*ssa.Alloc); isA {
-					for _, st := range model.FieldStoresTo(al, "Writer") {
-						if st.Val == ssa.Value(s.Writer) {
-							sawWrap = true
+					// whichever field of the adapter holds the wrapped writer (embedded or named)
+					for _, r := range *al.Referrers() {
+						if fa, isFA := r.(*ssa.FieldAddr); isFA {
+							for _, r2 := range *fa.Referrers() {
+								if st, isSt := r2.(*ssa.Store); isSt && st.Addr == ssa.Value(fa) && st.Val == ssa.Value(s.Writer) {
+									sawWrap = true
+								}
+							}
 						}
 					}
 				}
